@@ -76,18 +76,24 @@ PROPS = {
     ),
     'C11': dict(
         module='Hpfeeds.Props.C11', file='Hpfeeds/Props/C11.lean',
-        engines=[('aioclient', dict(prop='C11')), ('twclient', dict(prop='C11'))],
+        engines=[('aioclient', dict(prop='C11')), ('twclient', dict(prop='C11')), ('blkreactor', dict(prop='C11'))],
         trusted=['asyncio task machinery / Twisted ClientService are library code: create_connection and the endpoint are scripted (accept/refuse), transports are fakes, time is virtual', 'application calls are injected at quiescent points of the session\'s own tasks'],
     ),
     'C12': dict(
         module='Hpfeeds.Props.C12', file='Hpfeeds/Props/C12.lean',
-        engines=[('aioclient', dict(prop='C12')), ('twclient', dict(prop='C12'))],
+        engines=[('aioclient', dict(prop='C12')), ('twclient', dict(prop='C12')), ('blkreactor', dict(prop='C12'))],
         trusted=['asyncio.Queue / DeferredQueue are modelled as FIFO lists (library contract)', 'asyncio delivers no data_received after transport.close() or connection_lost'],
     ),
     'C13': dict(
         module='Hpfeeds.Props.C13', file='Hpfeeds/Props/C13.lean',
         engines=[('aioclient', dict(prop='C13')), ('twclient', dict(prop='C13'))],
         trusted=['real DNS/TCP failures are represented by the two outcomes accept / refuse; the liveness claim is proved in bounded-response form (DESIGN.md section 7, C13)', 'the harness reports connection_lost for every transport the client closed and advances the virtual clock by 5 s before judging close()'],
+    ),
+    'C20': dict(
+        module='Hpfeeds.Props.C20', file='Hpfeeds/Props/C20.lean',
+        engines=[('blkreactor', dict(prop='C20'))],
+        trusted=['the reactor is driven round by round by the harness (scripted socket and send outcomes, real readiness of the real socket pairs); application threads are real threads stopped at gates or at every line of hpfeeds/blocking/*.py',
+                 'queue.Queue\'s lock, the GIL and the atomicity of one send()/recv() system call are library / OS behaviour; preemption inside a Python statement, a send() blocking on a full socket pair and send() errors other than EAGAIN/EWOULDBLOCK are not modelled'],
     ),
     'C05': dict(
         module='Hpfeeds.Props.C05', file='Hpfeeds/Props/C05.lean',
